@@ -42,6 +42,8 @@ where
     transform_on_helper: Option<Ident>,
 
     define_component: Option<SyntaxContext>,
+    /// local names under which the user imported `Fragment` from 'vue'
+    fragment_aliases: Vec<Id>,
     interfaces: FnvHashMap<(Atom, SyntaxContext), TsInterfaceDecl>,
     type_aliases: FnvHashMap<(Atom, SyntaxContext), TsType>,
 
@@ -69,6 +71,7 @@ where
             transform_on_helper: None,
 
             define_component: None,
+            fragment_aliases: Default::default(),
             interfaces: Default::default(),
             type_aliases: Default::default(),
 
@@ -1041,7 +1044,12 @@ where
             JSXElementName::JSXMemberExpr(JSXMemberExpr { prop, .. }) => &*prop.sym,
             JSXElementName::JSXNamespacedName(JSXNamespacedName { name, .. }) => &*name.sym,
         };
+        let is_fragment_alias = matches!(
+            element_name,
+            JSXElementName::Ident(ident) if self.fragment_aliases.contains(&ident.to_id())
+        );
         let should_transformed_to_slots = name != FRAGMENT
+            && !is_fragment_alias
             && !self
                 .vue_imports
                 .get(FRAGMENT)
@@ -1435,6 +1443,22 @@ where
 
         if import_decl.src.value != "vue" {
             return;
+        }
+
+        for specifier in &import_decl.specifiers {
+            if let ImportSpecifier::Named(ImportNamedSpecifier {
+                local, imported, ..
+            }) = specifier
+            {
+                let imported_name = match imported {
+                    Some(ModuleExportName::Ident(ident)) => &ident.sym,
+                    Some(ModuleExportName::Str(str)) => &str.value,
+                    None => &local.sym,
+                };
+                if imported_name == FRAGMENT {
+                    self.fragment_aliases.push(local.to_id());
+                }
+            }
         }
 
         let ctxt = import_decl.specifiers.iter().find_map(|specifier| {
